@@ -53,8 +53,20 @@ def reset_fresh():
     _counter[0] = 0
 
 
+LOOP_INDEX = []      # generic iteration indices (z3 Int constants) of the enclosing summarised loops
+
+
+def loop_args():
+    return list(LOOP_INDEX)
+
+
 def fresh(prefix: str, kind: str) -> "Sym":
     n = fresh_name(prefix)
+    if LOOP_INDEX:
+        # inside a summarised loop a fresh value is a Skolem *function* of the iteration
+        rng = {"int": z3.IntSort(), "real": z3.RealSort(), "bool": z3.BoolSort()}[kind]
+        f = z3.Function(n, *([z3.IntSort()] * len(LOOP_INDEX)), rng)
+        return Sym(f(*LOOP_INDEX))
     if kind == "int":
         return Sym(z3.Int(n))
     if kind == "real":
